@@ -4,17 +4,18 @@
 # builds and that the existing suite still passes there, runs the quick checks of the given
 # properties against the copy (VERIF_REPO) and removes the copy.
 patch="$1"; shift
+here="$(cd "$(dirname "$0")/.." && pwd)"
 export GOFLAGS=-mod=mod GOPROXY=off GOSUMDB=off GOTOOLCHAIN=local
 scratch=/var/tmp/seedrun-$$
 rm -rf "$scratch"; mkdir -p "$scratch"
-trap 'rm -rf "$scratch"; rm -f /verif/.build/alt-*.mod /verif/.build/alt-*.sum /verif/.build/props-*.test' EXIT INT TERM
+trap 'rm -rf "$scratch"; rm -f "$here"/.build/alt-*.mod "$here"/.build/alt-*.sum "$here"/.build/props-*.test' EXIT INT TERM
 rsync -a --exclude .git /repo/ "$scratch"/
 if ! (cd "$scratch" && patch -p1 -s --no-backup-if-mismatch < "$patch" >/dev/null 2>&1); then echo "seedrun: patch does not apply: $patch"; exit 3; fi
 if ! (cd "$scratch" && go build ./... 2>/tmp/seedrun-build.log); then echo "seedrun: does not compile"; cat /tmp/seedrun-build.log; exit 3; fi
 if [ -z "$SEEDRUN_SKIP_TESTS" ]; then
   if ! (cd "$scratch" && go test -vet=off -count=1 ./... >/tmp/seedrun-test.log 2>&1); then echo "seedrun: existing tests FAIL with this change"; tail -5 /tmp/seedrun-test.log; fi
 fi
-cd /verif
+cd "$here" || exit 2
 for id in "$@"; do
   start=$(date +%s)
   out=$(VERIF_REPO="$scratch" ./check "$id" ${SEEDRUN_TIER:-quick} 2>&1); code=$?
